@@ -20,7 +20,7 @@ Fixpoint calls_e (k : nat) (e : expr) : bool :=
   | EBin _ _ a b | ECmp _ a b | EAnd a b | EOr a b | EIdx a b | EMin a b | EMax a b | EConcat a b | EShift _ _ a b =>
       calls_e k a && calls_e k b
   | ESlice a b c => calls_e k a && (calls_e k b && calls_e k c)
-  | ENot a | ENeg _ a | EFld a _ | ELen a | EConv _ a => calls_e k a
+  | ENot a | ENeg _ a | EFld a _ | ELen a | EConv _ a | EDec _ _ a => calls_e k a
   | EIfExp c a b => calls_e k c && (calls_e k a && calls_e k b)
   | ECall g args => Nat.ltb g k && cl args
   | EList l => cl l
